@@ -57,21 +57,31 @@ class _Boom(Exception):
     pass
 
 
+class _LostBoom(Exception):
+    pass
+
+
 class _Proto:
-    def __init__(self):
+    def __init__(self, lost_raises=False):
         self.transport = None
         self.lost = 0
+        self.lost_raises = lost_raises    # the application's own connectionLost() raises
 
     def makeConnection(self, transport):
         self.transport = transport
 
     def connectionLost(self, reason):
         self.lost += 1
+        if self.lost_raises:      # decided by the solver here, at the first lost connection
+            raise _LostBoom()
 
 
 class _Factory:
+    def __init__(self, lost_raises=False):
+        self.lost_raises = lost_raises
+
     def buildProtocol(self, addr):
-        return _Proto()
+        return _Proto(self.lost_raises)
 
 
 class _Transport:
@@ -123,7 +133,7 @@ class _Stop:
 
 
 class _Env:
-    def __init__(self, use_prep):
+    def __init__(self, use_prep, lost_raises=False):
         self.clock = Clock()
         self.bad = None
         self.attempts = []
@@ -138,7 +148,7 @@ class _Env:
         self.fails = 0              # consecutive failures (no established connection in between)
         self.not_before = None      # earliest time the next attempt may start
         self.policy_calls = []
-        self.svc = ClientService(self, _Factory(), retryPolicy=self.policy, clock=self.clock,
+        self.svc = ClientService(self, _Factory(lost_raises), retryPolicy=self.policy, clock=self.clock,
                                  prepareConnection=(None if use_prep == 0 else
                                                     self.prepare if use_prep == 1 else self.prepare_sync))
         self.sync_prepared = []
@@ -295,8 +305,8 @@ def _delay(n):
     return d
 
 
-def _run(use_prep, ops, ks):
-    env = _Env(use_prep)
+def _run(use_prep, ops, ks, lost_raises=False):
+    env = _Env(use_prep, lost_raises)
     svc = env.svc
     for i in range(len(ops)):
         o = ops[i]
@@ -390,7 +400,11 @@ def _run(use_prep, ops, ks):
                     env.book_failure(False)
                 else:
                     env.book_failure(True)   # lost while prepareConnection was still pending
-            conn.proxy.connectionLost(Failure(ConnectionDone()))
+            try:
+                conn.proxy.connectionLost(Failure(ConnectionDone()))
+            except _LostBoom:
+                pass    # the application protocol's own error comes back to the transport; the service
+                #         must have been told about the lost connection all the same (checks below)
             if conn.proto.lost != 1:
                 return False
             if not conn.rejected and closing and env.want and env.pending_attempt() is None:
@@ -433,7 +447,7 @@ def _run(use_prep, ops, ks):
 
 
 def plain(n: int, o0: int, o1: int, o2: int, o3: int, o4: int, o5: int, o6: int,
-          k0: int, k1: int, k2: int, k3: int, k4: int, k5: int, k6: int) -> bool:
+          k0: int, k1: int, k2: int, k3: int, k4: int, k5: int, k6: int, lr: bool) -> bool:
     """
     pre: 0 <= n <= B['plain']
     pre: 0 <= o0 <= 10 and 0 <= o1 <= 10 and 0 <= o2 <= 10 and 0 <= o3 <= 10
@@ -442,7 +456,7 @@ def plain(n: int, o0: int, o1: int, o2: int, o3: int, o4: int, o5: int, o6: int,
     pre: 0 <= k4 <= B['k'] and 0 <= k5 <= B['k'] and 0 <= k6 <= B['k']
     post: _
     """
-    return _run(0, _ops(n, [o0, o1, o2, o3, o4, o5, o6]), [k0, k1, k2, k3, k4, k5, k6])
+    return _run(0, _ops(n, [o0, o1, o2, o3, o4, o5, o6]), [k0, k1, k2, k3, k4, k5, k6], lost_raises=lr)
 
 
 def prep(pm: int, n: int, o0: int, o1: int, o2: int, o3: int, o4: int, o5: int, o6: int,
@@ -566,9 +580,11 @@ HARNESSES = [
 ]
 
 VECTORS = {
-    "plain": [(4, 0, 4, 1, 6, 0, 0, 0, 1, 1, 1, 1, 1, 1, 1), (5, 0, 3, 5, 9, 5, 0, 0, 1, 2, 1, 1, 1, 1, 1),
-              (7, 0, 4, 1, 2, 0, 1, 6, 1, 1, 1, 1, 1, 1, 1), (5, 0, 5, 10, 10, 4, 0, 0, 1, 1, 1, 1, 1, 1, 1),
-              (2, 2, 1, 0, 0, 0, 0, 0, 1, 1, 1, 1, 1, 1, 1), (3, 0, 3, 5, 0, 0, 0, 0, 1, 0, 1, 1, 1, 1, 1),
-              (7, 0, 3, 5, 9, 5, 9, 5, 1, 3, 1, 1, 1, 1, 1)],
+    "plain": [(4, 0, 4, 1, 6, 0, 0, 0, 1, 1, 1, 1, 1, 1, 1, False), (5, 0, 3, 5, 9, 5, 0, 0, 1, 2, 1, 1, 1, 1, 1, False),
+              (7, 0, 4, 1, 2, 0, 1, 6, 1, 1, 1, 1, 1, 1, 1, False), (5, 0, 5, 10, 10, 4, 0, 0, 1, 1, 1, 1, 1, 1, 1, False),
+              (2, 2, 1, 0, 0, 0, 0, 0, 1, 1, 1, 1, 1, 1, 1, False), (3, 0, 3, 5, 0, 0, 0, 0, 1, 0, 1, 1, 1, 1, 1, False),
+              (7, 0, 3, 5, 9, 5, 9, 5, 1, 3, 1, 1, 1, 1, 1, False),
+              (4, 0, 4, 6, 9, 0, 0, 0, 1, 1, 1, 1, 1, 1, 1, True), (4, 0, 4, 1, 6, 0, 0, 0, 1, 1, 1, 1, 1, 1, 1, True),
+              (6, 0, 4, 1, 0, 6, 2, 0, 1, 1, 1, 1, 1, 1, 1, True)],
     "prep": [(0, 7, 0, 2, 4, 7, 3, 6, 9, 1, 1, 1, 1, 2, 1, 1), (1, 6, 0, 2, 4, 3, 1, 6, 0, 1, 1, 1, 1, 1, 1, 1)],
 }
